@@ -4,7 +4,10 @@
 
   A case = a file tree (built with the other areas' Spec encoders: pg_control images, pg_authid heaps, sequence
   clusters, relmap files, WAL segments, whole clusters) + an argv.  The handler materialises the tree, runs the
-  binary (TZ=UTC, PGDATA as the case says) and returns
+  binary (TZ=UTC, PGDATA as the case says; the dump modes `pgread -d DIR [-db] [-t] [-list] [-sql] [-csv] [-v]` included:
+  whole clusters of area cluster's generator, stdout compared BYTE FOR BYTE — table, column, row order and the key
+  order inside a row are part of what is compared; only the timestamp of the `-- Generated at: ` line of `-sql` is
+  replaced by `@NOW` on both sides, mode `sqlts`) and returns
 
       exit=<code>|err=<hex of stderr (or of its first N bytes and "+")>|out=<hex of stdout>
 
@@ -61,12 +64,21 @@ def seqEnv (files : Files) : Model.SeqEnv :=
 def splitSlash (p : Bytes) : List Bytes :=
   (p.foldr (fun b acc => if b == 47 then [] :: acc else match acc with | h :: t => (b :: h) :: t | [] => [[b]]) [[]])
 
-/-- the `base` directory of the tree as the checksum model sees it -/
+/-- the `base` and `global` directories of the tree as the checksum model sees them (the generated trees have no
+`pg_tblspc`) -/
 def checksumFS (files : Files) (enabled : Bool) : Model.DataDirFS :=
-  let under := files.filterMap fun (p, d) => match splitSlash p with
-    | b :: rest => if b == strBytes "base" then some (rest, d) else none
+  let underOf (top : String) := files.filterMap fun (p, d) => match splitSlash p with
+    | b :: rest => if b == strBytes top then some (rest, d) else none
     | [] => none
-  if under.isEmpty then ⟨enabled, none⟩ else
+  let under := underOf "base"
+  let underG := underOf "global"
+  let globalEntries : Option (List (Bytes × Model.DbEntry)) :=
+    if underG.isEmpty then none
+    else some ((underG.filterMap fun (comps, _) => comps.head?).eraseDups.map fun name =>
+      match underG.find? (fun (comps, _) => comps == [name]) with
+      | some (_, d) => (name, Model.DbEntry.file d)
+      | none => (name, Model.DbEntry.dir))
+  if under.isEmpty then ⟨enabled, none, globalEntries, []⟩ else
   let dbs := (under.filterMap fun (comps, _) => comps.head?).eraseDups
   let entries : List (Bytes × Model.BaseEntry) := dbs.map fun db =>
     let inside := under.filterMap fun (comps, d) => match comps with
@@ -74,7 +86,7 @@ def checksumFS (files : Files) (enabled : Bool) : Model.DataDirFS :=
       | a :: f :: _ => if a == db then some (f, Model.DbEntry.dir) else none
       | _ => none
     if under.any (fun (comps, _) => comps == [db]) then (db, .file) else (db, .dir inside)
-  ⟨enabled, some entries⟩
+  ⟨enabled, some entries, globalEntries, []⟩
 
 def optOfR {α} (r : Model.R α) : Option α := match r with | .ok x => some x | .error _ => none
 
@@ -86,6 +98,13 @@ def walDir (files : Files) : Option Model.Wal.Dir :=
 def validDataDir (files : Files) : Bool :=
   match files.lookup (strBytes "global/1262") with | some d => !d.isEmpty | none => false
 
+def nowMarker : Bytes := strBytes "@NOW"
+
+/-- the generated clusters have no float columns (Gen/Cluster.lean:userTypes): the float texts are never consulted;
+`runModel` refuses (text `UNMODELLED:float-cell`) a dump that holds one -/
+def noFloats : Export.FloatFmt :=
+  { v64 := fun _ => strBytes "@FLOAT", v32 := fun _ => strBytes "@FLOAT", j64 := fun _ => none, j32 := fun _ => none }
+
 /-- the library over the tree; `pgdata` = PGDATA points at the tree -/
 def mkLib (files : Files) (pgdata : Bool) : Lib :=
   let relOf (p : Bytes) : Option Bytes := fsAbs files p
@@ -96,7 +115,7 @@ def mkLib (files : Files) (pgdata : Bool) : Lib :=
     verifyChecksums := fun dir => do
       let enabled := match Model.readControlFile (fsStr files) (bstr dir) with
         | .ok (some c) => c.dataChecksumsEnabled | _ => false
-      let fs := if dir == strBytes "@DIR" then checksumFS files enabled else ⟨enabled, none⟩
+      let fs := if dir == strBytes "@DIR" then checksumFS files enabled else ⟨enabled, none, none, []⟩
       return optOfR (← Model.verifyDataDirChecksums Model.computePageChecksum fs),
     scanAllSequences := fun dir => Model.scanAllSequences (seqEnv files) (bstr dir),
     findSequences := fun dir db => Model.findSequences (seqEnv files) (bstr dir) db,
@@ -120,7 +139,13 @@ def mkLib (files : Files) (pgdata : Bool) : Lib :=
     dumpBinaryRange := fun p r => do return optOfR (← Model.dumpBinaryRange hexDump (relOf p) r),
     segmentInfo := fun p (n, sz) =>
       optOfR (Model.getSegmentInfo [relOf p] 0 (Model.getSegmentNumberFromPath p) (some ⟨n, sz⟩)),
-    dumpBlockRange := fun p r => do return optOfR (← Model.dumpBlockRange (relOf p) r) }
+    dumpBlockRange := fun p r => do return optOfR (← Model.dumpBlockRange (relOf p) r),
+    -- DumpDataDir: area cluster's model over the tree (`filepath.Join(dataDir, "global", "1262")` = dir/global/1262 for
+    -- the directories the cases use: no trailing slash, no `..`); tables in filenode order (fix cluster/01)
+    dumpDataDir := fun dir opts => Model.dumpDataDir rr idOrder (fun p => fsAbs files (dir ++ [47] ++ p)) opts,
+    -- the handler replaces the timestamp of the `-- Generated at: ` line (and nothing else) by this marker
+    now := nowMarker,
+    floatFmt := noFloats }
 
 /-! ### argv ↔ Flags (plain `-name value` / `-name` forms; flag syntax variety is family `cli`'s business) -/
 
@@ -207,11 +232,19 @@ def runModel (files : Files) (pgdata : Bool) (f : Flags) : Modelled :=
   -- `-v` with an auto-detected directory: "[*] Auto-detected: <dir>" on stderr first
   let auto : Bytes := if f.verbose ∧ f.dataDir.isEmpty ∧ !detected.isEmpty ∧ !f.showVersion ∧ !f.detectPaths ∧ f.singleFile.isEmpty
     then strBytes "[*] Auto-detected: @DIR\n" else []
-  let pre := auto ++ verboseLine f a
+  -- `-v` in the dump mode: one "[*] <db> (OID n): k tables" line per dumped database, after a successful library call
+  let dumped : Option Spec.DumpResult := match a with
+    | .dump dir opts _ => (match L.dumpDataDir dir opts with | .ok (some r) => some r | _ => none)
+    | _ => none
+  let vlines : Bytes := if f.verbose then (dumped.map dumpVerbose).getD [] else []
+  let pre := auto ++ verboseLine f a ++ vlines
+  -- stdout of `-sql`: byte for byte, except that the handler masks the timestamp of the second line
+  let rawMode := match a with | .dump _ _ .sql => "sqlts" | _ => "raw"
   let r : M (Run × Option JV) := do
     let run ← cliRun L a
     let cv ← canonValue L a
     pure (run, cv)
+  if (dumped.map fun r => (dumpJV r).isNone).getD false then ⟨"UNMODELLED:float-cell", "all", "raw", a⟩ else
   match r with
   | .error e => ⟨faultStr e, "all", "raw", a⟩
   | .ok (.unrendered _, _) => ⟨"exit=lib|err=lib|out=lib", "all", libSpec f a, a⟩
@@ -221,7 +254,7 @@ def runModel (files : Files) (pgdata : Bool) (f : Flags) : Modelled :=
     let errSpec := if o.stderrMore then toString err.length else "all"
     match cv with
     | some v => ⟨s!"exit={o.exit}|err={errTxt}|out=canon:{hexOf (canonJV v)}", errSpec, "canon", a⟩
-    | none => ⟨s!"exit={o.exit}|err={errTxt}|out={hexOf o.stdout}", errSpec, "raw", a⟩
+    | none => ⟨s!"exit={o.exit}|err={errTxt}|out={hexOf o.stdout}", errSpec, rawMode, a⟩
 
 def clirenderEval (args : List String) : String :=
   match args with
@@ -317,7 +350,20 @@ structure CRCase where
   specOut : Option Out := none
 deriving Inhabited
 
-def nModes : Nat := 16
+def nModes : Nat := 18
+
+/-- C12 / C01 through the CLI: what the dump modes must print for a well-formed cluster inside the scope of `C01_dump`
+(`dumpHypB`) — the rendering of `Spec.expectedDump`, the dump the property text defines from the catalog contents (tables
+in filenode order; the type NAME of a column is the tool's own convention, `TypeName(typid)`, not stored data).  `-v`
+cases keep SPEC = MODEL (the verbose lines are not part of the spec `Out`). -/
+def dumpSpecOut (c : Spec.Cluster) (f : Flags) : Option Out :=
+  let o := Model.dumpOptions f
+  if f.verbose || !(Gen.clusterWFB c && Model.ClusterHyp.dumpHypB c o) then none else
+  let e : Spec.DumpResult := (Spec.expectedDump specVal c o).map fun d => { d with tables := d.tables.map fun t =>
+    { t with columns := t.columns.map fun col => { col with typ := Model.typeName col.typid } } }
+  match renderDump (mkLib [] false) (Model.outFormat f) e with
+  | .out out => some out
+  | .unrendered _ => none
 
 def genCase (idx size : Nat) : Gen CRCase := do
   let mode := idx % nModes
@@ -431,6 +477,27 @@ def genCase (idx size : Nat) : Gen CRCase := do
     | 2 => return ⟨{ d with showDropped := true, dbFilter := if ← Gen.bool then dbName else [] }, false, cfiles, ["mode=lib-dropped"], none⟩
     | 3 => return ⟨{ d with searchPattern := strBytes (← Gen.oneOf ["a", "^[0-9]+$", "alice|bob", "("]) }, false, cfiles, ["mode=lib-search"], none⟩
     | _ => return ⟨{ d with secrets := strBytes "auto", tableFilter := strBytes "zzz" }, false, cfiles, ["mode=lib-secrets"], none⟩
+  | 15 | 16 => do
+    -- the dump modes: JSON (15), `-sql` / `-csv` (16), with the filters, `-list`, `-v`, an auto-detected directory
+    let dbF ← (do if ← Gen.prob 1 3 then genDbFilter c else pure [])
+    let tF ← (do if ← Gen.prob 1 3 then genTableFilter c else pure [])
+    let pg ← Gen.prob 1 6
+    let dirKind ← Gen.below 12
+    let f : Flags := { dbFilter := dbF, tableFilter := tF, listOnly := ← Gen.prob 1 5, verbose := ← Gen.prob 1 4,
+                       dataDir := if pg then [] else if dirKind == 0 then dirTokB ++ strBytes "/nonexistent" else dirTokB,
+                       showDeleted := ← Gen.prob 1 8 }
+    let f : Flags ← (do
+      if mode == 15 then pure f
+      else match ← Gen.below 5 with
+        | 0 | 1 => pure { f with sqlOutput := true }
+        | 2 | 3 => pure { f with csvOutput := true }
+        | _ => pure { f with sqlOutput := true, csvOutput := true })
+    let broken ← Gen.prob 1 12
+    let fs := if broken then cfiles.filter fun (p, _) => p != strBytes "global/1262" else cfiles
+    let sp := if broken || (!pg && dirKind == 0) || (pg && !validDataDir fs) then none else dumpSpecOut c f
+    return ⟨f, pg, fs, [if mode == 15 then "mode=dump-json" else if f.sqlOutput then "mode=dump-sql" else "mode=dump-csv",
+                        if dbF.isEmpty then "db=-" else "db=set", if tF.isEmpty then "t=-" else "t=set",
+                        if f.listOnly then "list=1" else "list=0"], sp⟩
   | _ => do
     -- several mode flags at once on a tree that has everything: main.go's precedence decides
     let fs ← withExtras cfiles
@@ -474,8 +541,70 @@ def fixedCases : List CRCase :=
     ⟨{ singleFile := dirPfx ++ strBytes "base/5/16500", parseIndex := true }, false, [(strBytes "base/5/16500", hashMetaNaN)],
      ["mode=lib-index", "float=nan"], none⟩ ]
 
+/-! the dump modes by hand: one small cluster (database `postgres`, table `t`) under every flag of the dump mode -/
+
+def txt (s : String) : Option Spec.Datum := some (.short (strBytes s))
+def nameD (n : Bytes) : Option Spec.Datum := some (.fixed (n ++ zeros (64 - n.length)))
+
+/-- table t(id int4, name text): two live rows and a dead one -/
+def smallCluster : Spec.Cluster :=
+  miniCluster 14 true [mkAttr 16384 1 "id" 23 4 4, mkAttr 16384 2 "name" 25 (-1) 4]
+    [liveRow [i4 7, txt "alice"], liveRow [i4 8, txt "bob"], { vals := [i4 9, txt "carol"], natts := 2, infomask := 0x0500 }]
+
+/-- only the template databases: nothing is dumped (`"databases": null`) -/
+def emptyCluster : Spec.Cluster :=
+  { pgVersion := 16, dbs := [[⟨{ oid := 1, name := strBytes "template1", isTemplate := true }, 0x0B00⟩,
+                              ⟨{ oid := 4, name := strBytes "template0", isTemplate := true, allowConn := false }, 0x0B00⟩]], content := [] }
+
+/-- table t(id int4, name text) whose heap file has one page without tuples / only a dead row -/
+def noRowsCluster (dead : Bool) : Spec.Cluster :=
+  miniCluster 16 true [mkAttr 16384 1 "id" 23 4 4, mkAttr 16384 2 "name" 25 (-1) 4]
+    (if dead then [{ vals := [i4 9, txt "carol"], natts := 2, infomask := 0x0500 }] else [])
+
+/-- NULLs, a text needing every kind of JSON escape (`< > & " \`, control characters, U+2028), and — in a `name` and a
+`"char"` column, which DecodeType returns as they are — bytes that are not UTF-8 -/
+def escapeCluster : Spec.Cluster :=
+  miniCluster 15 true [mkAttr 16384 1 "id" 23 4 4, mkAttr 16384 2 "note" 25 (-1) 4, mkAttr 16384 3 "nm" 19 64 1,
+      mkAttr 16384 4 "c" 18 1 1, mkAttr 16384 5 "big" 20 8 8, mkAttr 16384 6 "ok" 16 1 1]
+    [liveRow [i4 1, none, nameD (strBytes "a<b>&\"q\\" ++ [0xC3, 0x28, 0xFF]), some (.fixed [0xE9]), some (.fixed (le 8 (2 ^ 64 - 1))), some (.fixed [1])],
+     liveRow [i4 0xFFFFFFFF, some (.short (strBytes "<>&\"\\\n\t\r\u0001 \u2028 é, x")), nameD (strBytes "plain"), none,
+              some (.fixed (le 8 (2 ^ 63))), some (.fixed [0])],
+     liveRow [none, some (.short []), none, none, none, none]]
+
+def dumpCase (c : Spec.Cluster) (f : Flags) (tags : List String) (pgdata : Bool := false) : CRCase :=
+  ⟨if pgdata then f else { f with dataDir := dirTokB }, pgdata, Spec.filesOf c, tags, dumpSpecOut c f⟩
+
+def dumpFixed : List CRCase :=
+  [ dumpCase smallCluster {} ["mode=dump-json"],
+    dumpCase smallCluster { sqlOutput := true } ["mode=dump-sql"],
+    dumpCase smallCluster { csvOutput := true } ["mode=dump-csv"],
+    dumpCase smallCluster { listOnly := true } ["mode=dump-json", "list=1"],
+    dumpCase smallCluster { dbFilter := strBytes "postgres" } ["mode=dump-json", "db=set"],
+    dumpCase smallCluster { dbFilter := strBytes "nosuchdb" } ["mode=dump-json", "db=set", "dbs=null"],
+    dumpCase smallCluster { tableFilter := strBytes "T" } ["mode=dump-json", "t=set"],
+    dumpCase smallCluster { tableFilter := strBytes "zzz" } ["mode=dump-json", "t=set", "tables=null"],
+    dumpCase emptyCluster {} ["mode=dump-json", "dbs=null"],
+    -- no global/1262: DumpDataDir returns the error of os.ReadFile
+    ⟨{ dataDir := dirTokB }, false, [(strBytes "PG_VERSION", strBytes "16\n")], ["mode=dump-json", "tree=empty"], none⟩,
+    dumpCase (noRowsCluster false) {} ["mode=dump-json", "rows=0"],
+    dumpCase (noRowsCluster true) { sqlOutput := true } ["mode=dump-sql", "rows=0"],
+    dumpCase escapeCluster {} ["mode=dump-json", "escapes"],
+    dumpCase escapeCluster { sqlOutput := true } ["mode=dump-sql", "escapes"],
+    dumpCase escapeCluster { csvOutput := true } ["mode=dump-csv", "escapes"],
+    -- `-v`, directory taken from PGDATA: "[*] Auto-detected: …" and one line per database on stderr
+    dumpCase smallCluster { verbose := true } ["mode=dump-json", "verbose"] true,
+    -- `-sql` wins over `-csv`
+    dumpCase smallCluster { sqlOutput := true, csvOutput := true, listOnly := true } ["mode=dump-sql", "list=1"],
+    -- a table without columns that has a row: `"rows": [ {} ]`
+    dumpCase (miniCluster 14 true [] [liveRow []]) {} ["mode=dump-json", "zerocol"],
+    -- a dropped column (typid 0, reported as type "oid:0")
+    dumpCase ((fixedClusters.getD 3 default).1) {} ["mode=dump-json", "dropped"],
+    dumpCase ((fixedClusters.getD 3 default).1) { csvOutput := true } ["mode=dump-csv", "dropped"] ]
+
+def allFixed : List CRCase := fixedCases ++ dumpFixed
+
 def genCaseAt (idx size : Nat) : Gen CRCase :=
-  if idx < fixedCases.length then pure (fixedCases.getD idx default) else genCase idx size
+  if idx < allFixed.length then pure (allFixed.getD idx default) else genCase idx size
 
 def kindOf : Action → String
   | .version => "version" | .detect => "detect" | .file _ m => (match m with
@@ -494,7 +623,7 @@ def clirenderGen (seed idx size : Nat) : Case :=
   let k := (genCaseAt idx size).run' (Prng.ofSeed seed idx)
   let m := runModel k.files k.pgdata k.flags
   let spec := match k.specOut with
-    | some o => if m.outMode == "raw" then showOutRaw o else m.text
+    | some o => if m.outMode == "raw" || m.outMode == "sqlts" then showOutRaw o else m.text
     | none => m.text
   let toks := flagsToArgv k.flags
   let exitTag := if m.text.startsWith "exit=0" then "exit=0" else if m.text.startsWith "exit=1" then "exit=1" else "exit=other"
@@ -506,5 +635,5 @@ def clirenderGen (seed idx size : Nat) : Case :=
 end Driver.Fam.CliR
 
 namespace Driver.Fam
-def clirender : Family := { name := "clirender", gen := CliR.clirenderGen, eval := CliR.clirenderEval, fixed := CliR.fixedCases.length }
+def clirender : Family := { name := "clirender", gen := CliR.clirenderGen, eval := CliR.clirenderEval, fixed := CliR.allFixed.length }
 end Driver.Fam
